@@ -385,6 +385,14 @@ func checkPlain(pc PlainCase) (key, msg string, out uint64) {
 		s.Regions["zz-bare"] = &astisub.Region{ID: "zz-bare"}
 		s.Items = append(s.Items, &astisub.Item{StartAt: 7 * time.Second, EndAt: 8 * time.Second, Style: s.Styles["zz-bare"], Region: s.Regions["zz-bare"],
 			Lines: []astisub.Line{{Items: []astisub.LineItem{{Text: "bare", Style: s.Styles["zz-bare"]}}}}})
+		// a cue that exceeds what some formats can carry (30 lines, a 300-character line): a writer may cut what it
+		// writes, not what it was given
+		many := make([]astisub.Line, 0, 40)
+		for i := 0; i < 30; i++ {
+			many = append(many, astisub.Line{Items: []astisub.LineItem{{Text: fmt.Sprintf("l%d", i)}}})
+		}
+		many = append(many, astisub.Line{Items: []astisub.LineItem{{Text: strings.Repeat("w", 300)}}})
+		s.Items = append(s.Items, &astisub.Item{StartAt: 9 * time.Second, EndAt: 10 * time.Second, Lines: many})
 		before := purity.Snapshot(s)
 		var b bytes.Buffer
 		corpus.Write(pc.Writer, s, &b)
